@@ -507,8 +507,8 @@ def grammar_texts(draw):
     else:
         z = draw(st.booleans())
         a = draw(dt_text(False))
-        if int(a[:4]) > 9900:       # start + duration must stay representable (year <= 9999), like second 60 and year 0000
-            a = "9900" + a[4:]
+        if int(a[:4]) > 9000:       # start + duration (<= 99999 days) must stay representable (year <= 9999), like second 60 and year 0000
+            a = "9000" + a[4:]
         a = a + ("Z" if z else "")
         if draw(st.booleans()):
             b = draw(dur_text()).lstrip("-")
